@@ -138,6 +138,11 @@ func cmdCheck(args []string) {
 		os.Exit(2)
 	}
 	e.checkGuards = spec.Guards
+	// the locals of the functions as they were named when the claims were taken (renaming tolerance)
+	localsPath := filepath.Join(*root, "claims", id+".locals.json")
+	if b, err := os.ReadFile(localsPath); err == nil && !*update {
+		json.Unmarshal(b, &e.localAliases)
+	}
 	for _, ce := range e.contracts.errors {
 		notes = append(notes, "contract parse error: "+ce)
 	}
@@ -405,6 +410,9 @@ func cmdCheck(args []string) {
 		}
 		os.MkdirAll(filepath.Dir(claimsPath), 0o755)
 		os.WriteFile(claimsPath, []byte(strings.Join(names, "\n")+"\n"), 0o644)
+		if lb, err := json.MarshalIndent(e.seenLocals, "", " "); err == nil {
+			os.WriteFile(localsPath, lb, 0o644)
+		}
 		claimed = map[string]bool{}
 		for _, n := range names {
 			claimed[n] = true
